@@ -13,6 +13,7 @@
 # limitations under the License.
 
 
+import copy
 import warnings
 
 import torch
@@ -69,7 +70,7 @@ class ComplexWaveFunction(WaveFunctionBase):
             _warn_on_missing_gpu(gpu)
             self.rbm_am = module.to(self.device)
             self.rbm_am.device = self.device
-            self.rbm_ph = module.to(self.device).clone()
+            self.rbm_ph = copy.deepcopy(self.rbm_am)
             self.rbm_ph.device = self.device
 
         self.num_visible = self.rbm_am.num_visible
